@@ -77,6 +77,7 @@ type State struct {
 	pending  []pendingGhost
 	depth    int // inlining depth
 	trace    []string
+	astEpoch int // bumped when a callee may have rewritten AST fields: fields first touched later are unknown
 }
 
 type pendingGhost struct {
@@ -98,6 +99,7 @@ func (s *State) clone() *State {
 		pending:  append([]pendingGhost(nil), s.pending...),
 		depth:    s.depth,
 		trace:    append([]string(nil), s.trace...),
+		astEpoch: s.astEpoch,
 	}
 	for k, v := range s.vars {
 		n.vars[k] = v
